@@ -168,6 +168,25 @@ void all(int part, int nparts) {
       vf::comps(c, cc);
       vf::comps(a.Value().Cross(b.Value()), raw);
       c10::check_direction<T>("Direction.Cross(Direction)", cc, raw, 3);
+      // ... and with a second direction that is nearly parallel / antiparallel to the first (one component moved by 2^-k of the
+      // largest): the cross product of the two stored unit vectors is a small but ordinary vector and must give a unit direction
+      T big = 0;
+      for (int i = 0; i < 3; i++) big = std::fmax(big, std::fabs(v[i]));
+      const int p = std::numeric_limits<T>::digits;
+      for (int k : {6, p / 2 - 2, p / 2 + 3, p - 6, p - 2})
+        for (int j = 0; j < 3; j++)
+          for (int sg : {1, -1}) {
+            T w2[3] = {v[0], v[1], v[2]};
+            w2[j] += std::ldexp(big, -k);
+            const Direction<T> b2(sg * w2[0], sg * w2[1], sg * w2[2]);
+            T r2[3], c2[3];
+            vf::comps(a.Value().Cross(b2.Value()), r2);
+            const T rmax = std::fmax(std::fabs(r2[0]), std::fmax(std::fabs(r2[1]), std::fabs(r2[2])));
+            if (rmax != 0 && rmax * rmax < std::numeric_limits<T>::min() * 16) continue;  // squared length would underflow: outside the statement
+            vf::comps(a.Cross(b2), c2);
+            c10::check_direction<T>("Direction.Cross(nearly parallel Direction)", c2, r2, 3);
+            vf::stat("path_comparisons");
+          }
     }
     // 3-D -> 2-D -> 3-D
     if (v[0] != 0 || v[1] != 0) {
